@@ -319,7 +319,7 @@ package keeper
 //@ func (k Keeper).RotateQueries(ctx) (err)
 //@ requires [rotation_counter_within_the_list] oracle.CyclelistSequencer < count(oracle.Cyclelist)
 //@ requires [round_counter_below_2_64] oracle.QuerySequencer < 18446744073709551615
-//@ requires [windows_fit] forall q bytes :: forall i int :: blockheight(ctx) + oracle.Query[pair(q, i)].RegistrySpecBlockWindow < 18446744073709551616
+//@ requires [windows_fit] forall q bytes :: forall i int :: has(oracle.Query, pair(q, i)) ==> blockheight(ctx) + oracle.Query[pair(q, i)].RegistrySpecBlockWindow < 18446744073709551616
 //@ modifies oracle.Query, oracle.CyclelistSequencer, oracle.QuerySequencer
 //@ ensures [no_rotation_while_the_current_window_is_open] ret(CurrentQuery, 1) == nil && ret(CurrentQuery, 0).Expiration > blockheight(ctx) && !called(GetCyclelist) ==> err == nil && nothing_written()
 //@ ensures [open_window_is_detected] old(oracle.CyclelistSequencer) != oracle.CyclelistSequencer ==> called(GetCyclelist)
